@@ -1,18 +1,21 @@
 """C07 — the compiler is total on arbitrary source text and reports honestly.
-Lean: Gen/CharIndex.lean (regenerated from the tree under check by translate/chartables.py on every run, via
-the part's prepare()), Model/Scan.lean, Model/Exit.lean, Lemmas/Scan.lean, Props/C07.lean.
-Tie: translator (G) for the char-indexed tables and the keyword table; hand model (H) of the scanner's
-dispatch tied by `-WTrt+sc` token dumps of the scratch-built compiler; search (fuzz) for everything the
-model cannot exhibit (parser, macro expander, type checker, back end)."""
+Lean: Gen/CharIndex.lean, Gen/Diagnostics.lean, Gen/Catalogue.lean (regenerated on every run by the parts'
+prepare_src()), Model/Scan.lean, Model/Exit.lean, Model/IfState.lean, Lemmas/Scan.lean, Lemmas/IfState.lean,
+Props/C07.lean.
+Tie: translators (G) for the char-indexed tables, the keyword table and the diagnostic sites; hand models (H)
+of the scanner's dispatch and of the includer's if-state machine tied by `-WTrt+sc` / `-WTr+in` dumps of the
+scratch-built compiler; a deterministic catalogue of invalid-by-construction inputs with recorded verdicts
+(part scancat, runs first); search (part scanfuzz) for everything the models cannot exhibit."""
 from vlib import common
-from checks.parts import scanfuzz
+from checks.parts import scancat, scanfuzz
 
-PARTS = [scanfuzz]
+PARTS = [scancat, scanfuzz]
 
 def run(ctx):
     ctx.assumptions.append("glibc's ctype tables (*__ctype_b_loc()) are valid for subscripts -128..255 (C locale; the compiler never calls setlocale)")
     ctx.assumptions.append("plain `char` is signed on the build target (x86-64 Linux, no -funsigned-char in the Makefile)")
     ctx.assumptions.append("scan model scope: text without NUL bytes and without system-command lines; scanNumber only dispatched to, not followed")
+    ctx.assumptions.append("if-state model scope: the lines of one file (no #include inside the modelled sequence)")
     common.run_parts(ctx, PARTS, hooks=False)
 
 def replay(ctx, path):
